@@ -316,6 +316,7 @@ type setInst struct {
 	sym   string
 	enc   [][]string
 	aux   stackage.Auxiliary // nil = whatever the library allocated
+	myAux stackage.Auxiliary // the caller's own map (see ownAux)
 	auxOK bool               // model knows the identity
 	fifo  bool
 	fold  bool
@@ -349,6 +350,30 @@ var c18FoldBit = func() uint16 {
 }()
 
 var c18AuxMap = stackage.Auxiliary{"k": 1}
+
+// ownAux is the caller's own map (one per machine instance): it is handed to SetAuxiliary, kept by the
+// caller, and must hold what the caller put into it whatever is called afterwards.
+func (in *setInst) ownAux() stackage.Auxiliary {
+	if in.myAux == nil {
+		in.myAux = stackage.Auxiliary{"k": 1}
+	}
+	return in.myAux
+}
+
+func (in *csetInst) ownAux() stackage.Auxiliary {
+	if in.myAux == nil {
+		in.myAux = stackage.Auxiliary{"k": 1}
+	}
+	return in.myAux
+}
+
+func auxIntact(a stackage.Auxiliary) bool {
+	if a == nil {
+		return true
+	}
+	v, ok := a["k"]
+	return len(a) == 1 && ok && v == 1
+}
 
 // an allocated map without entries: it is the caller's map all the same (never written to by the harness)
 var c18EmptyAux = stackage.Auxiliary{}
@@ -448,7 +473,7 @@ func c18SetOps() []setOp {
 	}
 	add("SetAuxiliary()", func(in *setInst) { in.s.SetAuxiliary(); in.aux, in.auxOK = nil, false })
 	add("SetAuxiliary(nil)", func(in *setInst) { in.s.SetAuxiliary(nil); in.aux, in.auxOK = nil, false })
-	add("SetAuxiliary(map)", func(in *setInst) { in.s.SetAuxiliary(c18AuxMap); in.aux, in.auxOK = c18AuxMap, true })
+	add("SetAuxiliary(map)", func(in *setInst) { in.s.SetAuxiliary(in.ownAux()); in.aux, in.auxOK = in.ownAux(), true })
 	add("SetAuxiliary(empty map)", func(in *setInst) { in.s.SetAuxiliary(c18EmptyAux); in.aux, in.auxOK = c18EmptyAux, true })
 	add("SetFold(true)", func(in *setInst) { in.s.SetFold(true); in.fold = true })
 	add("SetFold(false)", func(in *setInst) { in.s.SetFold(false); in.fold = false })
@@ -474,6 +499,13 @@ func c18SetMachine(c *Ctx, kind string, maxDepth int) *Machine[*setInst] {
 	name := "C18 settings " + kind
 	withMutex := strings.HasSuffix(kind, " mutex")
 	kind = strings.TrimSuffix(kind, " mutex")
+	// "<KIND> encap-prefilled-<n>": the machine starts from an instance that was given n encapsulation
+	// pairs before, one call each (the long regime: every setter around a list that has grown n times)
+	prefill := 0
+	if i := strings.Index(kind, " encap-prefilled-"); i >= 0 {
+		fmt.Sscanf(kind[i:], " encap-prefilled-%d", &prefill)
+		kind = kind[:i]
+	}
 	type depthKey struct{}
 	return &Machine[*setInst]{
 		Name: name,
@@ -483,6 +515,14 @@ func c18SetMachine(c *Ctx, kind string, maxDepth int) *Machine[*setInst] {
 			in := &setInst{s: newStackKind(kind).Push("a", "b"), kind: kind, own: own, by: by, byWant: by.String()}
 			if withMutex {
 				in.s = newStackKind(kind).SetMutex().Push("a", "b")
+			}
+			for i := 0; i < prefill; i++ {
+				ch := string(rune('0' + i%10))
+				if i >= 10 {
+					ch = string(rune('A' + i - 10))
+				}
+				in.s.SetEncap(ch)
+				in.enc = append(in.enc, []string{ch})
 			}
 			return in
 		},
@@ -532,6 +572,9 @@ func c18SetMachine(c *Ctx, kind string, maxDepth int) *Machine[*setInst] {
 			}
 			if fmt.Sprint(d.Enc) != fmt.Sprint(in.enc) && !(len(d.Enc) == 0 && len(in.enc) == 0) {
 				bad("encap:"+cls, "stored encapsulation %q want %q", d.Enc, in.enc)
+			}
+			if !auxIntact(in.myAux) {
+				bad("caller-map-modified:"+cls, "the caller's own Auxiliary map, handed to SetAuxiliary earlier, now reads %v (it held k=1)", map[string]any(in.myAux))
 			}
 			if in.auxOK {
 				if a := s.Auxiliary(); a == nil || reflect.ValueOf(a).Pointer() != reflect.ValueOf(in.aux).Pointer() {
@@ -588,6 +631,7 @@ type csetInst struct {
 	cat   string
 	enc   [][]string
 	aux   stackage.Auxiliary
+	myAux stackage.Auxiliary
 	auxOK bool
 }
 
@@ -637,7 +681,7 @@ func c18CondSetMachine(c *Ctx) *Machine[*csetInst] {
 	}
 	add("SetAuxiliary()", func(in *csetInst) { in.c.SetAuxiliary(); in.aux, in.auxOK = nil, false })
 	add("SetAuxiliary(nil)", func(in *csetInst) { in.c.SetAuxiliary(nil); in.aux, in.auxOK = nil, false })
-	add("SetAuxiliary(map)", func(in *csetInst) { in.c.SetAuxiliary(c18AuxMap); in.aux, in.auxOK = c18AuxMap, true })
+	add("SetAuxiliary(map)", func(in *csetInst) { in.c.SetAuxiliary(in.ownAux()); in.aux, in.auxOK = in.ownAux(), true })
 	add("SetAuxiliary(empty map)", func(in *csetInst) { in.c.SetAuxiliary(c18EmptyAux); in.aux, in.auxOK = c18EmptyAux, true })
 	name := "C18 settings Condition"
 	return &Machine[*csetInst]{
@@ -663,6 +707,9 @@ func c18CondSetMachine(c *Ctx) *Machine[*csetInst] {
 			}
 			if got := cd.IsEncap(); got != (len(in.enc) > 0) {
 				bad("IsEncap", "IsEncap()=%v want %v (model %q)", got, len(in.enc) > 0, in.enc)
+			}
+			if !auxIntact(in.myAux) {
+				bad("caller-map-modified", "the caller's own Auxiliary map, handed to SetAuxiliary earlier, now reads %v (it held k=1)", map[string]any(in.myAux))
 			}
 			if in.auxOK {
 				if a := cd.Auxiliary(); a == nil || reflect.ValueOf(a).Pointer() != reflect.ValueOf(in.aux).Pointer() {
@@ -892,6 +939,13 @@ func init() {
 			}
 		}
 		sm = append(sm, c18SetMachine(c, "NOT mutex", 0))
+		pre := []int{4, 5, 8}
+		if tier == "thorough" {
+			pre = []int{3, 4, 5, 7, 8, 9, 15, 16, 17, 33}
+		}
+		for i, n := range pre {
+			sm = append(sm, c18SetMachine(c, fmt.Sprintf("%s encap-prefilled-%d", []string{"LIST", "AND", "OR"}[i%3], n), 0))
+		}
 		lm = append(lm, c18LvlMachine(c, "AND", true), c18LvlMachine(c, "Condition", tier == "thorough"))
 		return
 	}
@@ -911,6 +965,9 @@ func init() {
 			m.MaxDepth = 3 // every setter sequence of length <= 3 (4 in the thorough tier)
 			if !c.Quick() {
 				m.MaxDepth = 4
+			}
+			if strings.Contains(m.Name, "encap-prefilled") {
+				m.MaxDepth-- // the prefilled machines: one step less (their start is n calls deep already)
 			}
 			st := BFS(c, m)
 			c.Exhaustive = c.Exhaustive && st.Complete
